@@ -113,11 +113,11 @@ fn storage_n(n: usize) -> (PduTx<'static>, PduRx<'static>, ethercrab::PduLoop<'s
 }
 
 /// Build the network from `seed` (deterministic) and bring every group to OP.
-fn build(seed: u64, nslots: usize) -> Result<Net, String> {
+fn build(seed: u64, nslots: usize, pdu_us: u64) -> Result<Net, String> {
     let mut rng = Rng::new(seed);
     vharness::clock::reset();
     let (mut tx, mut rx, pl) = storage_n(nslots);
-    let timeouts = Timeouts { state_transition: Duration::from_millis(300), ..Timeouts::default() };
+    let timeouts = Timeouts { state_transition: Duration::from_millis(300), pdu: Duration::from_micros(pdu_us), ..Timeouts::default() };
     let md: &'static MainDevice<'static> = Box::leak(Box::new(MainDevice::new(pl, timeouts, MainDeviceConfig { dc_static_sync_iterations: 0, ..Default::default() })));
     let n = rng.range(2, 8) as usize;
     let ng = rng.range(2, 3) as usize;
@@ -192,7 +192,12 @@ fn digest(net: &Net) -> Vec<String> {
 struct ConcStats { steps: usize, switches: usize, reordered: usize, max_inflight: usize, frames: usize }
 
 /// All tasks at once under the seeded scheduler.
-fn run_concurrent(net: &mut Net, tasks: &[TaskKind], rng: &mut Rng) -> Result<(Vec<Vec<String>>, ConcStats), String> {
+/// `late`: the late-poll family.  The response deadline is short (1.5 ms) but every response
+/// arrives well inside it: frames go out as soon as they are sendable, each takes 0..500 us and
+/// responses are delivered in the order they arrive (the clock is the arrival time).  What the
+/// scheduler may still do is keep a task whose response is already stored waiting while the
+/// others run - past that task's deadline.  Alone the operation succeeds, so it must here.
+fn run_concurrent(net: &mut Net, tasks: &[TaskKind], rng: &mut Rng, late: bool) -> Result<(Vec<Vec<String>>, ConcStats), String> {
     let md = net.md; let gs = net.gs;
     let mut futs: Vec<Option<Pin<Box<dyn Future<Output = Vec<String>>>>>> = tasks.iter().cloned().map(|k| Some(Box::pin(run_task(md, gs, k)) as Pin<Box<dyn Future<Output = Vec<String>>>>)).collect();
     let flags: Vec<Arc<Flag>> = tasks.iter().map(|_| Arc::new(Flag(AtomicBool::new(true)))).collect();
@@ -201,7 +206,8 @@ fn run_concurrent(net: &mut Net, tasks: &[TaskKind], rng: &mut Rng) -> Result<(V
     let txw: Waker = txflag.clone().into();
     net.tx.replace_waker(&txw);
     let mut results: Vec<Option<Vec<String>>> = tasks.iter().map(|_| None).collect();
-    let mut inflight: Vec<(usize, Vec<u8>)> = Vec::new(); // (send order, response)
+    let mut inflight: Vec<(usize, Vec<u8>, u64)> = Vec::new(); // (send order, response, arrival time in the late family)
+    let victim = rng.below(tasks.len() as u64) as usize;
     let mut sent = 0usize;
     let mut st = ConcStats { steps: 0, switches: 0, reordered: 0, max_inflight: 0, frames: 0 };
     let mut last = usize::MAX;
@@ -212,8 +218,15 @@ fn run_concurrent(net: &mut Net, tasks: &[TaskKind], rng: &mut Rng) -> Result<(V
         if st.steps > 2_000_000 { return Err("scheduler: step limit".into()); }
         let mut choices: Vec<(u8, usize)> = Vec::new();
         for (t, f) in flags.iter().enumerate() { if results[t].is_none() && f.0.load(Ordering::SeqCst) { choices.push((0, t)); } }
-        if txflag.0.load(Ordering::SeqCst) { choices.push((1, 0)); }
-        for k in 0..inflight.len() { choices.push((2, k)); }
+        if late {
+            // the victim is scheduled rarely
+            if choices.len() > 1 && !rng.chance(1, 6) { choices.retain(|c| c.1 != victim); }
+            if txflag.0.load(Ordering::SeqCst) { choices.clear(); choices.push((1, 0)); }
+            else if let Some(k) = (0..inflight.len()).min_by_key(|k| (inflight[*k].2, inflight[*k].0)) { choices.push((2, k)); }
+        } else {
+            if txflag.0.load(Ordering::SeqCst) { choices.push((1, 0)); }
+            for k in 0..inflight.len() { choices.push((2, k)); }
+        }
         if choices.is_empty() {
             if !vharness::clock::jump_to_next_timer() { return Err(format!("scheduler: stuck (no runnable task, nothing in flight, no timer); results so far {:?}", results.iter().map(|r| r.is_some()).collect::<Vec<_>>())); }
             continue;
@@ -233,16 +246,16 @@ fn run_concurrent(net: &mut Net, tasks: &[TaskKind], rng: &mut Rng) -> Result<(V
                     let mut bytes = Vec::new();
                     let _ = frame.send_blocking(|b| { bytes = b.to_vec(); Ok(b.len()) });
                     st.frames += 1;
-                    if let Some(r) = net.seg.exchange(&bytes) { inflight.push((sent, r)); }
+                    if let Some(r) = net.seg.exchange(&bytes) { inflight.push((sent, r, vharness::clock::now_us() + rng.below(501))); }
                     sent += 1;
                     st.max_inflight = st.max_inflight.max(inflight.len());
                     txflag.0.store(true, Ordering::SeqCst);
                 }
             }
             _ => {
-                let (ord, r) = inflight.remove(k);
-                if inflight.iter().any(|(o, _)| *o < ord) { st.reordered += 1; }
-                vharness::clock::advance(rng.below(501));
+                let (ord, r, at) = inflight.remove(k);
+                if inflight.iter().any(|(o, _, _)| *o < ord) { st.reordered += 1; }
+                if late { vharness::clock::advance(at.saturating_sub(vharness::clock::now_us())); } else { vharness::clock::advance(rng.below(501)); }
                 let _ = net.rx.receive_frame(&r);
             }
         }
@@ -268,29 +281,31 @@ fn case(seed: u64) -> String {
     let nslots_choice = [2usize, 4, 4, 8, 16];
     let r = std::panic::catch_unwind(std::panic::AssertUnwindSafe(|| {
         // pick the tasks on a scratch build so both real builds see the same list
-        let mut probe = build(seed, 16)?;
+        let late = seed % 4 == 3;
+        let pdu_us = if late { 1500 } else { 30_000 };
+        let mut probe = build(seed, 16, 30_000)?;
         let tasks = pick_tasks(&probe, &mut rng);
         if tasks.len() < 2 { return Ok::<_, String>(None); }
         let need = tasks.len();
         let nslots = *nslots_choice.iter().filter(|n| **n >= need).nth(rng.below(3) as usize).unwrap_or(&16);
         let seq = run_sequential(&mut probe, &tasks)?;
         let seq_digest = digest(&probe);
-        let mut net = build(seed, nslots)?;
+        let mut net = build(seed, nslots, pdu_us)?;
         probe.seg.frame_time_us = 0;
         net.seg.frame_time_us = 0; // latencies are the scheduler's business in the concurrent run
-        let (conc, st) = run_concurrent(&mut net, &tasks, &mut rng)?;
+        let (conc, st) = run_concurrent(&mut net, &tasks, &mut rng, late)?;
         let conc_digest = digest(&net);
-        Ok(Some((tasks, nslots, seq, seq_digest, conc, conc_digest, st, net.assign.clone(), net.frames)))
+        Ok(Some((tasks, nslots, seq, seq_digest, conc, conc_digest, st, net.assign.clone(), net.frames, late)))
     }));
     match r {
         Err(_) => format!("{{\"kind\":\"c20\",\"seed\":{},\"res\":\"PANIC\"}}", seed),
         Ok(Err(e)) => format!("{{\"kind\":\"c20\",\"seed\":{},\"res\":\"Err\",\"err\":{:?}}}", seed, e),
         Ok(Ok(None)) => format!("{{\"kind\":\"c20\",\"seed\":{},\"res\":\"Skip\"}}", seed),
-        Ok(Ok(Some((tasks, nslots, seq, sd, conc, cd, st, assign, setup_frames)))) => {
+        Ok(Ok(Some((tasks, nslots, seq, sd, conc, cd, st, assign, setup_frames, late)))) => {
             let js = |v: &Vec<Vec<String>>| v.iter().map(|l| format!("[{}]", l.iter().map(|s| format!("{:?}", s)).collect::<Vec<_>>().join(","))).collect::<Vec<_>>().join(",");
             let jd = |v: &Vec<String>| v.iter().map(|s| format!("{:?}", s)).collect::<Vec<_>>().join(",");
-            format!("{{\"kind\":\"c20\",\"seed\":{},\"res\":\"Ok\",\"n\":{},\"assign\":{:?},\"nslots\":{},\"tasks\":[{}],\"seq\":[{}],\"conc\":[{}],\"seq_digest\":[{}],\"conc_digest\":[{}],\"steps\":{},\"switches\":{},\"reordered\":{},\"max_inflight\":{},\"frames\":{},\"setup_frames\":{}}}",
-                seed, assign.len(), assign, nslots, tasks.iter().map(|t| format!("{:?}", format!("{:?}", t))).collect::<Vec<_>>().join(","), js(&seq), js(&conc), jd(&sd), jd(&cd),
+            format!("{{\"kind\":\"c20\",\"late\":{},\"seed\":{},\"res\":\"Ok\",\"n\":{},\"assign\":{:?},\"nslots\":{},\"tasks\":[{}],\"seq\":[{}],\"conc\":[{}],\"seq_digest\":[{}],\"conc_digest\":[{}],\"steps\":{},\"switches\":{},\"reordered\":{},\"max_inflight\":{},\"frames\":{},\"setup_frames\":{}}}",
+                late, seed, assign.len(), assign, nslots, tasks.iter().map(|t| format!("{:?}", format!("{:?}", t))).collect::<Vec<_>>().join(","), js(&seq), js(&conc), jd(&sd), jd(&cd),
                 st.steps, st.switches, st.reordered, st.max_inflight, st.frames, setup_frames)
         }
     }
